@@ -553,6 +553,13 @@ class BreakStmt:
 
 
 @dataclass
+class ContinueStmt:
+    """A ``continue`` statement; directly in the main loop body it ends the current ``loop()`` pass."""
+
+    main_loop: bool = False
+
+
+@dataclass
 class CatchClause:
     """A ``catch`` clause attached to a :class:`TryStatement`."""
 
